@@ -1,0 +1,62 @@
+//go:build verif
+
+package file
+
+import (
+	"io"
+	"os"
+	"sync"
+)
+
+// VerifHook, when set, is called at every crash point of the file store:
+//
+//	kind  "write<" / "write>"   before / after a write to the named file; offset is the file position
+//	                            before the write; after the write, data holds the bytes just written
+//	      "sync<" / "sync>"     before / after a Sync of the named file (also the sync done by Close)
+//	      "remove<" / "remove>" before / after removing the named file
+//	      "open<" / "open>"     before / after opening (and possibly creating) the named file
+//
+// The callback runs on the goroutine of the store operation, with the store's file mutex held where
+// the operation holds it. It exists only in builds with the `verif` tag.
+var VerifHook func(kind, name string, offset int64, data []byte)
+
+var (
+	verifMu      sync.Mutex
+	verifPreOffs = map[string]int64{}
+)
+
+func verifPoint(kind string, f *os.File, name string) {
+	hook := VerifHook
+	if hook == nil {
+		return
+	}
+	var off int64 = -1
+	var data []byte
+	if f != nil {
+		if name == "" {
+			name = f.Name()
+		}
+		if cur, err := f.Seek(0, io.SeekCurrent); err == nil {
+			off = cur
+		}
+		switch kind {
+		case "write<":
+			verifMu.Lock()
+			verifPreOffs[name] = off
+			verifMu.Unlock()
+		case "write>":
+			verifMu.Lock()
+			pre, ok := verifPreOffs[name]
+			delete(verifPreOffs, name)
+			verifMu.Unlock()
+			if ok && pre >= 0 && off >= pre {
+				data = make([]byte, off-pre)
+				if _, err := f.ReadAt(data, pre); err != nil && err != io.EOF {
+					data = nil
+				}
+				off = pre
+			}
+		}
+	}
+	hook(kind, name, off, data)
+}
